@@ -13,7 +13,8 @@ Require Import V.Model.ClaimThreads.
 Require Import V.Proofs.TailArith.
 Require Import V.Proofs.FragArith.
 Require Import V.Proofs.ReaderInv.
-Require Import V.Proofs.ExclDefs V.Proofs.ExclPub1 V.Proofs.ExclPub2 V.Proofs.ExclPub3 V.Proofs.ExclPub7 V.Proofs.ExclRd1 V.Proofs.ExclRd2 V.Proofs.ExclRd3 V.Proofs.ExclRd4.
+Require Import V.Proofs.ExclDefs V.Proofs.ExclPub1 V.Proofs.ExclPub2 V.Proofs.ExclPub3 V.Proofs.ExclPub7 V.Proofs.ExclRd1.
+Require Import V.Proofs.ExclRd2 V.Proofs.ExclRd3 V.Proofs.ExclRd4.
 From Coq Require Import ZifyBool.
 Open Scope Z_scope.
 
@@ -21,8 +22,7 @@ Section S.
   Variable c : cfg.
   Hypothesis W : wf_cfg c.
 
-  (* the system: the exclusive publisher (thread tp), one subscriber (poll, bounded_poll, controlled_poll,
-     bounded_controlled_poll), environment threads that move the publication limit *)
+  (* the system: the exclusive publisher (thread tp), one subscriber (any of the six poll flavours), environment threads that move the publication limit *)
   Variable tp : nat.
 
   Definition env_ok (l : elocal) : Prop := forall op, In op (e_ops l) -> exists v, op = SetLimit v.
@@ -35,7 +35,7 @@ Section S.
     end.
   Definition init_x (x : xthread) : Prop :=
     match x with
-    | XV l => exists limit polls, l = viewer limit polls /\ forallb flav_ok polls = true
+    | XV l => exists limit polls, l = viewer limit polls
     | _ => kind_ok x
     end.
   Definition admx (s : shared) (th : nat -> xthread) (t : nat) : Prop :=
@@ -92,7 +92,7 @@ Section S.
       + cbn [init_shared sh_subpos]. pose proof (wf_n0 c W). apply (sub_ok_bnd c W); [apply xg0_laid | lia|].
         unfold bnd. cbn. unfold xbase. rewrite Z.eqb_refl. left. reflexivity.
       + intros t l Ht. assert (Hne : t <> tp) by (intros ->; congruence). specialize (Hinit t Hne). rewrite Ht in Hinit.
-        destruct Hinit as (limit0 & polls & -> & Hf). apply VInv_idle; cbn; try assumption; destruct polls; reflexivity.
+        destruct Hinit as (limit0 & polls & ->). apply VInv_idle; cbn; destruct polls; reflexivity.
       + intros t Hne. specialize (Hinit t Hne). destruct (th t) as [x | l | l | l]; cbn in *; auto.
     - (* a step *)
       destruct IH as [(pl & Hpl & I & M) L Hsub Hrd Hk Hr]. unfold admx in Hadm. unfold xtstep in Hstep. unfold xgstepx.
